@@ -1,18 +1,18 @@
 #!/usr/bin/env python3
-"""tools/dedup_names.py <file.lean> <suffix> : rename declarations of <file> that clash with
-declarations of other Proofs/Spec/Model files (helper lemmas written by parallel work packages)."""
+"""tools/dedup_names.py <file.lean> : declarations of <file> that clash with declarations of other
+Proofs/Spec/Model files (helper lemmas written by parallel work packages) are made `private`."""
 import re, sys, os, glob
-f, suf = sys.argv[1], sys.argv[2]
+f = sys.argv[1]
 root = os.path.dirname(os.path.dirname(os.path.abspath(f)))
 decl = re.compile(r'^(?:private\s+)?(?:theorem|lemma|def|abbrev|structure|instance)\s+([\w\.\']+)', re.M)
 mine = set(decl.findall(open(f).read()))
 others = set()
 for g in glob.glob(os.path.join(root, '*', '*.lean')):
     if os.path.abspath(g) != os.path.abspath(f):
-        others |= set(decl.findall(open(g).read()))
-clash = sorted(mine & others, key=len, reverse=True)
+        others |= set(n for n in decl.findall(open(g).read()))
+clash = sorted(mine & others)
 s = open(f).read()
 for n in clash:
-    s = re.sub(r'(?<![\w\.\'])' + re.escape(n) + r'(?![\w\'])', n + '_' + suf, s)
+    s = re.sub(r'^(theorem|lemma|def|abbrev)\s+' + re.escape(n) + r'(?![\w\.\'])', r'private \1 ' + n, s, flags=re.M)
 open(f, 'w').write(s)
-print('renamed', clash)
+print('made private', clash)
